@@ -112,6 +112,7 @@ class Check(object):
         self.extra_cov = {}
         self.gen_status = None
         self.gen_broken = None
+        self.gen_entries = []     # one dict per translation tie: module, specs, status
         self.known = [k for k in load_known() if k['property'] == pid]
         os.makedirs(SCRATCH_ROOT, exist_ok=True)
         self.scratch = tempfile.mkdtemp(prefix='%s-%d-' % (pid, os.getpid()), dir=SCRATCH_ROOT)
@@ -123,33 +124,48 @@ class Check(object):
         self.obligations = obl['theorems']
         self.partial = obl.get('partial', [])
         self.proof_module = obl.get('module', 'RB.Proofs.' + self.pid)
-        gen = obl.get('gen')
+        # translation ties: one entry or a list of entries {specs, module, theorems}
+        gens = obl.get('gen') or []
+        if isinstance(gens, dict):
+            gens = [gens]
+        statuses = []
         # 1. regenerate translated definitions from /repo's working tree, then build
         #    (serialised: several checks may run at once)
         with open(os.path.join(SCRATCH_ROOT, 'lake.lock'), 'w') as lk:
             fcntl.flock(lk, fcntl.LOCK_EX)
-            if gen:
-                self.gen_status = regenerate(gen['specs'])
+            for gen in gens:
+                statuses.append(regenerate(gen['specs']))
             r = sh(['lake', 'build'], cwd=LEAN, timeout=3600)
-            if r.returncode == 0 and gen and self.gen_status == 'ok':
-                rg = sh(['lake', 'build', gen['module']], cwd=LEAN, timeout=3600)
-                if rg.returncode != 0:
-                    self.gen_status = 'proof-broken: ' + (rg.stdout + rg.stderr)[-1500:]
+            if r.returncode == 0:
+                for k, gen in enumerate(gens):
+                    if statuses[k] == 'ok':
+                        rg = sh(['lake', 'build', gen['module']], cwd=LEAN, timeout=3600)
+                        if rg.returncode != 0:
+                            statuses[k] = 'proof-broken: ' + (rg.stdout + rg.stderr)[-1500:]
+        if gens:
+            self.gen_entries = [{'module': g['module'], 'specs': g['specs'], 'status': st}
+                                for g, st in zip(gens, statuses)]
+            bad = [e for e in self.gen_entries if e['status'] != 'ok']
+            if len(gens) == 1:
+                self.gen_status = statuses[0]
+            else:
+                self.gen_status = 'ok' if not bad else '; '.join('%s: %s' % (e['module'], e['status']) for e in bad)
         if r.returncode != 0:
             self.proof_failures.append('lake build failed: ' + (r.stdout + r.stderr)[-2000:])
             return
-        if gen:
-            if self.gen_status == 'ok':
+        for gen, st in zip(gens, statuses):
+            if st == 'ok':
                 self.obligations = self.obligations + gen['theorems']
                 obl = dict(obl, extra_imports=obl.get('extra_imports', []) + [gen['module']])
                 self.notes.append('translation tie: definitions regenerated from %s and %s rebuilt'
                                   % (', '.join(gen['specs']), gen['module']))
             else:
                 # not a finding by itself: the registered tie is the behavioural correspondence;
-                # the correspondence module directs extra search at the translated functions
+                # the correspondence module directs extra search at the translated functions.
+                # Only this entry's theorems are left out.
                 self.gen_broken = self.gen_status
                 self.notes.append('translation tie NOT available for the current source (%s); theorems %s are not '
-                                  'counted; search escalated' % (self.gen_status[:300], gen['theorems']))
+                                  'counted; search escalated' % (st[:300], gen['theorems']))
         # 2. grep audit over the whole lean tree (comments stripped)
         for root, _dirs, files in os.walk(LEAN):
             if '.lake' in root:
